@@ -8,7 +8,7 @@ of their UTF-8 bytes (`-` = empty).
 
 * `names` → `adv=<hex,…> files=<hex,…> loaded=<file:variant,…>`
 * `adv <name>` → `dom=<advertised?> spec=<NewPlatform(name) must succeed: file embedded, parses, has default>`
-* `def <file> <variant>` → `kind=<network|generic|none> err=<ok|badoption> ` ++ `Def.canon` of what
+* `def <file> <variant>` → `kind=<network|generic|none> err=<ok|badoption> loads=<constructs> ` ++ `Def.canon` of what
   `NewPlatform` (variant `-`) / `NewPlatformVariant` hands to `setDriver`; `none` when unknown
 * `wit <file> <variant>` → `lv=<key:witness:authWitness:targetable,…> cls=<key+key|key…> checks=<bits>`
 * `match <file> <variant> <key> <subject>` → `<levelMatches> <find span of the level pattern>`
@@ -70,14 +70,14 @@ def handleC17 : List String → String
     | none => "bad-op"
     | some n =>
       let ok := embeddedFiles.contains (n ++ ".yaml") &&
-        files.any fun f => f.file == n ++ ".yaml" && f.parses && f.hasDefault
+        files.any fun f => f.file == n ++ ".yaml" && f.parses && f.hasDefault && constructs f.default
       s!"dom={b2s (advertised.contains n)} spec={b2s ok}"
   | ["def", hf, hv] =>
     match lookupHex hf hv with
     | none => "none"
     | some l =>
       let r := setDriver l.d
-      s!"kind={kindS r.1} err={errS r.2} " ++ l.d.canon
+      s!"kind={kindS r.1} err={errS r.2} loads={b2s (constructs l.d)} " ++ l.d.canon
   | ["wit", hf, hv] =>
     match lookupHex hf hv with
     | none => "none"
